@@ -23,7 +23,7 @@ LEVEL_TEXT = (
     "lines, hex/non-hex end lines, escape runs, over-long runs) x fragmentations x {HDLC reader in 4 configurations, P1 reader, payload and "
     "message protocols with both candidate orders}; exceptions are attributed to the innermost han/ frame. Sampling, not proof."
 )
-RUNS = {"quick": 30000, "thorough": 1500000}
+RUNS = {"quick": 20000, "thorough": 1500000}
 CHUNK = {"quick": 300, "thorough": 2000}
 BUDGET_S = {"quick": 90, "thorough": 1500}
 RULE = (
@@ -196,7 +196,7 @@ def execute(sc):
     struct = (0x2F, 0x21, 0x0A) if sub["reader"] == "p1" else (0x7E, 0x7D)
     return {
         "violations": viol,
-        "digest": prng.digest([returned, any_invalid, steps if target in ("hdlc", "p1") else 0, [v["sig"] for v in viol]]),
+        "digest": prng.digest([returned, any_invalid, [v["sig"] for v in viol]]),  # raw step counts stay out: first calls pay for lazy imports/regex caches
         "nontrivial": any(b in struct for b in noise) and (partial_state_calls > 0 or returned > 0),
         "key": prng.digest([target, sc["cands"], sub["cfg"], prng.digest(wire.hex()), sub["cuts"]]),
         "faults": dict({f"noise_{k}": 1 for k in sc.get("kinds", ())}, fragmentation_cuts=fragment.n_cuts(len(wire), sub["cuts"])),
